@@ -493,8 +493,7 @@ def _print_atoms(atoms, c, p, vf, objs=None):
                 space, _n, eq, quote, _v = c.attrfmt[(a["i"], a["st"])]
             else:
                 space, eq, quote = " ", "=", '"'
-            obj = vf.make(a["v"]) if objs is None else objs(a["v"])
-            t = conv(obj)
+            t = _val_text(a["v"], vf, objs)
             segs.append(space + d["n"] + eq + quote + esc_attr(t, quote) + quote)
         elif k == "sdflt":
             # 'default': the static value under the statement's spelling of the name
@@ -511,8 +510,7 @@ def _print_atoms(atoms, c, p, vf, objs=None):
                 space, eq, quote = " ", "=", '"'
             segs.append(space + d["n"] + eq + quote + d["n"] + quote)
         elif k == "kattr":
-            obj = vf.make(a["v"]) if objs is None else objs(a["v"])
-            segs.append(" " + a["k"] + '="' + esc_attr(conv(obj), '"') + '"')
+            segs.append(" " + a["k"] + '="' + esc_attr(_val_text(a["v"], vf, objs), '"') + '"')
         elif k == "val":
             t = _val_text(a["v"], vf, objs)
             if t is None:
